@@ -83,12 +83,15 @@ def model_check(ctx):
     gdump = ctx.path('gen', 'jsongen')
     ndump = ctx.path('gen', 'numgen')
     simdir = os.path.dirname(ctx.path('sim', 'x'))
+    gsimdir = os.path.dirname(ctx.path('gsim', 'x'))
     jobs = [
         ('gen', 'JsonGen', 'JsonGen_%s.cfg' % t, dict(workers=w, heap='6g', dump=gdump, timeout=1500)),
         ('doc', 'JsonDocMC', 'JsonDocMC_%s.cfg' % t, dict(workers=max(2, w // 2), timeout=1500)),
         ('sep', 'JsonSep', 'JsonSep_%s.cfg' % t, dict(workers=2, timeout=900, extra=['-coverage', '1'])),
         ('sepany', 'JsonSep', 'JsonSep_anyquick.cfg' if q else 'JsonSep_any.cfg', dict(workers=2, timeout=900, extra=['-coverage', '1'])),
         ('fix', 'JsonNumFix', 'JsonNumFix_%s.cfg' % t, dict(workers=w, heap='4g', dump=ndump, timeout=1500)),
+        ('gsim', 'JsonGen', 'JsonGen_sim.cfg', dict(workers=1, simulate='file=%s/b,num=%d' % (gsimdir, 150 if q else 1500),
+                                                    depth=150, seed=ctx.seed, timeout=600)),
         ('sim', 'NumGen', 'NumGen_sim.cfg', dict(workers=1, simulate='file=%s/b,num=%d' % (simdir, 150 if q else 3000),
                                                  depth=40, seed=ctx.seed, timeout=600)),
     ]
@@ -103,14 +106,14 @@ def model_check(ctx):
     reach = [a for a, n in cov.items() if a.startswith('Err') and n > 0]
     if reach:
         raise vlib.Infra('JsonSep: error branch reachable on a valid text: %s' % reach)
-    ctx.coverage['mc_states'] = {k: res[k]['distinct'] for k in res if k != 'sim'}
+    ctx.coverage['mc_states'] = {k: res[k]['distinct'] for k in res if k not in ('sim', 'gsim')}
     # lexeme table of the generator (single source: the spec)
     lex = {}
     for m in re.finditer(r'<<"LEX", (\d+), (<<[^>]*>>)>>', res['gen']['out']):
         lex[int(m.group(1))] = bytes(vlib.tla_seq_to_list(m.group(2)))
     if len(lex) < 20:
         raise vlib.Infra('lexeme table of JsonGen not found in TLC output')
-    return lex, gdump + '.dump', ndump + '.dump', simdir
+    return lex, gdump + '.dump', ndump + '.dump', simdir, gsimdir
 
 
 def texts_from_dump(path, lex):
@@ -230,32 +233,81 @@ class Gen:
         self.cases = []
         self.seen = set()
         self.k = ctx.seed * 7919
+        self.n = 0
 
-    def add(self, text, keep, src, combo=None):
-        key = (keep, text)
-        if key in self.seen:
+    def add(self, text, keep, src, combo=None, force=False):
+        key = hash((keep, text))
+        if key in self.seen and not force:
             return
         self.seen.add(key)
         combos = COMBOS_KEEP if keep else COMBOS_NOKEEP
         self.k += 1
+        self.n += 1
         api, rd = combo or combos[self.k % len(combos)]
-        self.cases.append(dict(id=len(self.cases), keep=keep, api=api, rd=rd, text=text, src=src))
+        self.cases.append(dict(keep=keep, api=api, rd=rd, text=text, src=src))
 
     def add_file(self, path, off, ln, keep, src):
         self.k += 1
+        self.n += 1
         combos = COMBOS_KEEP if keep else COMBOS_NOKEEP
         api, rd = combos[self.k % len(combos)]
-        self.cases.append(dict(id=len(self.cases), keep=keep, api=api, rd=rd, file=path, off=off, len=ln, src=src))
+        self.cases.append(dict(keep=keep, api=api, rd=rd, file=path, off=off, len=ln, src=src))
+
+    def take(self):
+        c, self.cases = self.cases, []
+        return c
 
 
-def make_cases(ctx, exe, lex, gdump, ndump, simdir):
+def string_pool(rnd):
+    """JSON string lexemes exercising every escape of RFC 8259 section 7, backslash runs before the closing
+    quote (the parser decides `escaped` by counting them), raw UTF-8 and DEL"""
+    atoms = [b'a', b'Z', b' ', b'0', b'-1', b'{', b'}', b'[', b']', b':', b',', b'/', b'\\"', b'\\\\', b'\\/', b'\\b', b'\\f',
+             b'\\n', b'\\r', b'\\t', b'\\u0000', b'\\u001f', b'\\u0041', b'\\u00e9', b'\\uD83D\\uDE00', b'\\udead', b'\\uABCD',
+             '\u00e9'.encode(), '\u20ac'.encode(), '\U0001F600'.encode(), b'\x7f', b"'", b'true', b'null', b'.5', b'1e5',
+             b'\\\\\\\\', b'\\\\\\"', b'</script>', b'&amp;', b'\\u005C', b'\\u0022']
+    pool = [b'""', b'"\\\\"', b'"\\""', b'"\\\\\\""', b'"\\\\\\\\"', b'"a\\\\"', b'"\\"\\\\"', b'" "', b'"\\u0000"']
+    for _ in range(120):
+        pool.append(b'"' + b''.join(rnd.choice(atoms) for _ in range(rnd.randint(1, 9))) + b'"')
+    pool.append(b'"' + b'x' * 300 + b'\\\\"')
+    pool.append(b'"' + b'\\\\' * 64 + b'"')
+    return pool
+
+
+def complete(ids, stk, ph, lex):
+    """a valid text from a viable prefix of JsonGen: fill the pending value, then close what p.stk holds open"""
+    toks = [lex[i] for i in ids]
+    if ph == 'colon':
+        toks += [b':', b'0.50']
+    elif ph == 'val':
+        toks += [b'-0']
+    elif ph == 'key':
+        toks += [b'"a"', b':', b'1E+2']
+    toks += [b'}' if x == 1 else b']' for x in reversed(stk)]
+    return toks
+
+
+def sim_texts(gsimdir, lex, rnd, per_walk):
+    out = []
+    for fn in sorted(os.listdir(gsimdir)):
+        txt = open(os.path.join(gsimdir, fn)).read()
+        sts = re.findall(r'toks = (<<[^>]*>>)\n/\\ p = \[stk \|-> (<<[^>]*>>), ph \|-> "(\w+)"\]', txt)
+        sts = [x for x in sts if x[2] not in ('bad',) and x[0] != '<<>>']
+        if not sts:
+            continue
+        pick = [sts[-1]] + [rnd.choice(sts) for _ in range(per_walk - 1)]
+        for t, k, ph in pick:
+            out.append(complete(vlib.tla_seq_to_list(t), vlib.tla_seq_to_list(k), ph, lex))
+    return out
+
+
+def gen_cases(ctx, exe, lex, gdump, ndump, simdir, gsimdir, B):
+    """yields batches (lists) of cases"""
     q = ctx.quick()
     rnd = ctx.rnd
     g = Gen(ctx)
     texts = texts_from_dump(gdump, lex)
     ctx.coverage['texts_enumerated'] = len(texts)
     for i, toks in enumerate(texts):
-        # every enumerated text: once without and once with number keeping, whitespace variant rotating
         m1 = (i + ctx.seed) % 4
         if q:
             # quick: TLC enumerates (and checks the design invariants on) all texts up to 6 grammar tokens; the
@@ -269,26 +321,39 @@ def make_cases(ctx, exe, lex, gdump, ndump, simdir):
             if ngram <= 4:
                 g.add(render(toks, 0, rnd), False, 'gen')
                 g.add(render(toks, 3, rnd), True, 'gen')
-            continue
-        g.add(render(toks, m1, rnd), False, 'gen')
-        g.add(render(toks, (m1 + 1 + (i // 4) % 3) % 4, rnd), True, 'gen')
-        g.add(render(toks, 0, rnd), False, 'gen')
-        g.add(render(toks, 3, rnd), False, 'gen')
+        else:
+            # thorough: every enumerated text (<= 7 grammar tokens); option and whitespace variant rotate with
+            # index and seed for the 7-token ones, all four combinations for the smaller ones
+            ngram = sum(1 for t in toks if t not in (b',', b':'))
+            if ngram >= 7:
+                g.add(render(toks, m1, rnd), bool((i // 4 + ctx.seed) % 2), 'gen')
+            else:
+                g.add(render(toks, m1, rnd), False, 'gen')
+                g.add(render(toks, (m1 + 1 + (i // 4) % 3) % 4, rnd), True, 'gen')
+                g.add(render(toks, 0, rnd), False, 'gen')
+                g.add(render(toks, 3, rnd), True, 'gen')
+        if len(g.cases) >= B:
+            yield g.take()
+    del texts
     exh, sim, border, srclen = number_lexemes(ctx, ndump, simdir)
     ctx.coverage['number_lexemes'] = dict(exhaustive=len(exh), simulated=len(sim), border=len(border))
     allnum = exh + sim + border
     borderset = set(border)
+    top = max(srclen.values())
     for i, n in enumerate(allnum):
-        if q and i < len(exh) and srclen[n] >= 6 and rnd.random() >= 1 / 6:
-            continue        # quick: all lexemes from NumGen length <= 5, a seeded sixth of length 6
+        longest = i < len(exh) and srclen[n] >= top
+        if longest and rnd.random() >= (1 / 6 if q else 1 / 2):
+            continue        # all lexemes below the top NumGen length (quick 6, thorough 7), a seeded part of the top length
         n2 = allnum[(i * 7 + 3 + ctx.seed) % len(allnum)]
         k = i + ctx.seed
         g.add(contexts(n, n2, k), False, 'num')
-        if n in borderset or i % 8 == ctx.seed % 8 or not q:
+        if n in borderset or i % 8 == ctx.seed % 8 or (not q and not longest):
             g.add(contexts(n, n2, k + 5), False, 'num')
             g.add(contexts(n, n2, k + 1), True, 'num')
-        if b'e' in n and (i % 16 == 0 or not q):
+        if b'e' in n and (i % 16 == 0 or (not q and not longest)):
             g.add(contexts(n.replace(b'e', b'E'), n2, k + 2), False, 'num')
+        if len(g.cases) >= B:
+            yield g.take()
     # packed arrays: neighbours of an in-place rewritten lexeme
     for j in range(200 if q else 3000):
         xs = [rnd.choice(allnum) for _ in range(rnd.randint(3, 24))]
@@ -297,6 +362,27 @@ def make_cases(ctx, exe, lex, gdump, ndump, simdir):
         g.add(t, False, 'numpack')
         if j % 4 == 0:
             g.add(t, True, 'numpack')
+    # random walks of the generator automaton far beyond the exhaustive bound, completed to valid texts;
+    # strings and numbers replaced from the pools (any string escapes, long mantissas, huge exponents)
+    pool = string_pool(rnd)
+    walks = sim_texts(gsimdir, lex, rnd, 3 if q else 6)
+    ctx.coverage['simulated_texts'] = len(walks)
+    for j, toks in enumerate(walks):
+        for variant in range(2):
+            ts = []
+            for t in toks:
+                if t[:1] == b'"' and rnd.random() < 0.7:
+                    t = rnd.choice(pool)
+                elif JSON_NUM.match(t) and rnd.random() < 0.7:
+                    t = rnd.choice(allnum)
+                ts.append(t)
+            g.add(render(ts, (j + variant) % 4, rnd), bool((j + variant) % 2), 'sim')
+    # any nesting depth
+    for d in ([40, 300, 2000] if q else [40, 300, 2000, 8000]):
+        for keep in (False, True):
+            g.add(b'[' * d + b'1.0' + b']' * d, keep, 'deep')
+            g.add(b'{"a":' * d + b'[1E+2,{}]' + b'}' * d, keep, 'deep')
+            g.add((b'[{"k" : ' * (d // 2)) + b'-0.50' + (b' } ,0.0]' * (d // 2)), keep, 'deep')
     # the repository's own inputs
     rows = vlib.test_inputs(ctx, 'json')
     nrows = 0
@@ -306,8 +392,7 @@ def make_cases(ctx, exe, lex, gdump, ndump, simdir):
             nrows += 1
             for keep in (False, True):
                 for combo in (COMBOS_KEEP if keep else COMBOS_NOKEEP):
-                    g.seen.discard((keep, s))
-                    g.add(s, keep, 'test', combo)
+                    g.add(s, keep, 'test', combo, force=True)
     ctx.coverage['repo_test_inputs'] = nrows
     files = []
     d = os.path.join(vlib.REPO, 'tests/json/corpus')
@@ -324,14 +409,19 @@ def make_cases(ctx, exe, lex, gdump, ndump, simdir):
                 g.add_file(f, 0, 0, keep, 'corpus')
         r = vlib.run([exe, 'spans', f, '1500'], timeout=300)
         sp = [json.loads(l) for l in r.stdout.splitlines() if l.strip()]
-        sp = [s for s in sp if s['len'] >= 2]
+        sp = [x for x in sp if x['len'] >= 2]
         pick = vlib.sample(sp, (150 if q else 4000) if size > 20000 else (40 if q else 400), rnd)
-        for s in pick:
+        for x in pick:
             nsub += 1
-            g.add_file(f, s['off'], s['len'], bool(nsub % 3 == 0), 'corpus-sub')
+            g.add_file(f, x['off'], x['len'], bool(nsub % 3 == 0), 'corpus-sub')
     ctx.coverage['corpus_files'] = len(files)
     ctx.coverage['corpus_subvalues'] = nsub
-    return g.cases
+    for d in vlib.known_cases('C07'):
+        g.cases.append(case_from_ident(d))
+    yield g.take()
+
+
+GENERATED = ('gen', 'num', 'numpack', 'sim', 'deep')       # sources that must be valid JSON by construction
 
 
 # ---------------------------------------------------------------- RUN + TV
@@ -483,12 +573,13 @@ def judge(ctx, cases, lines, st=None):
     tick(ctx, 'windowed texts validated (%d)' % len(multi))
     last = {}
     for i in order:
-        e = json.loads(groups[i][-1])
+        ll = groups[i][-1]
+        e = json.loads(ll[:ll.index(',"it":[')] + '}')       # scalar fields only; the lexeme lists come last
         c = cases[i]
-        e.pop('it', None)
-        e.pop('ot', None)
         last[i] = e
         whys = rejected.get(i, [])
+        if not e['igo'] and c['src'] in GENERATED:
+            raise vlib.Infra('generator produced a text that encoding/json does not accept: %r' % (ident(c),))
         if any(w.startswith('oracle') for w in whys):
             raise vlib.Infra('validity oracles disagree (JsonDoc recogniser vs encoding/json.Valid) on case %r: %s'
                              % (ident(c), whys))
@@ -579,22 +670,15 @@ def tick(ctx, what):
 def run(ctx):
     exe = vlib.build_harness(ctx, 'c07')
     tick(ctx, 'harness built')
-    lex, gdump, ndump, simdir = model_check(ctx)
+    lex, gdump, ndump, simdir, gsimdir = model_check(ctx)
     tick(ctx, 'model checking done')
-    cases = make_cases(ctx, exe, lex, gdump, ndump, simdir)
-    tick(ctx, '%d cases generated' % len(cases))
-    for d in vlib.known_cases('C07'):
-        c = case_from_ident(d)
-        c['id'] = len(cases)
-        cases.append(c)
     st = Stats()
     total_rej = 0
     reproduced = 0
-    B = 150000
-    for lo in range(0, len(cases), B):
-        batch = cases[lo:lo + B]
+    for batch in gen_cases(ctx, exe, lex, gdump, ndump, simdir, gsimdir, 120000):
+        tick(ctx, '%d cases generated' % len(batch))
         rejected, _ = validate(ctx, exe, batch, st)
-        tick(ctx, 'batch at %d validated, %d rejected' % (lo, len(rejected)))
+        tick(ctx, 'batch validated, %d rejected' % len(rejected))
         total_rej += len(rejected)
         if rejected:
             reproduced += confirm(ctx, exe, batch, rejected)
@@ -628,7 +712,7 @@ def run(ctx):
         exhaustive_bound='every valid JSON text with <= %d grammar tokens over the 14-scalar/3-key lexeme table of JsonGen; '
                          'every JSON number lexeme that is the image of a NumGen lexeme of length <= %d over {0,1,4,5,9,+,-,.,e} '
                          '(one size larger: model-checked by TLC, run on the real code for a seeded sample)'
-                         % ((5, 5) if ctx.quick() else (7, 7)),
+                         % ((5, 5) if ctx.quick() else (7, 6)),
     ))
     ctx.assumptions += [
         'the harness splitter (whitespace / structural bytes / string boundaries) is the only Go code between the bytes and '
